@@ -70,6 +70,8 @@ class Seeds:
                 if val is None:
                     return False, f"self.{expr.attr} is updated in place at {wf.where(st)}"
                 ok, why = self._seed_value(wf, val, depth + 1, seen)
+                if not ok and isinstance(val, ast.Constant) and isinstance(val.value, int) and self._seed_absent(wf, st):
+                    ok = True  # the fixed default, on the path where the settings have no seed: what .get("seed", <default>) does
                 if not ok:
                     return False, f"self.{expr.attr} assigned at {wf.where(st)}: {why}"
             return True, f"self.{expr.attr} comes from the seed setting"
@@ -107,6 +109,19 @@ class Seeds:
         if isinstance(expr, ast.Call):
             return self._seed_value(f, expr, depth, seen)
         return False, f"unrecognised seed expression {util.expr_text(expr, 50)}"
+
+    def _seed_absent(self, f, st):
+        """the statement only runs when the settings have no 'seed' entry (`if "seed" in settings: .. else: <here>`)"""
+        from ..effects import Guards
+        try:
+            atoms = Guards(self.ctx).atoms(f, st)
+        except AnalysisError:
+            return False
+        for e, pol in atoms:
+            if isinstance(e, ast.Compare) and len(e.ops) == 1 and util.const(e.left) == "seed":
+                if (isinstance(e.ops[0], ast.In) and not pol) or (isinstance(e.ops[0], ast.NotIn) and pol):
+                    return True
+        return False
 
     def _seed_value(self, f, val, depth, seen):
         """Value assigned to a seed / generator holder."""
